@@ -100,8 +100,48 @@ End EndToEnd.
 Print Assumptions C04_regenerated_ideal_loop_computes_the_model_field.
 Print Assumptions C04_regenerated_single_phase_loop_computes_the_model_field.
 
-(* the oracle hypothesis is satisfiable: elimination itself (read back from the diagonals) is such a solver on every system with >= 1 row -
-   non-vacuity is shown on an instance instead of reconstructing rows from diagonals: a 2-node, 3-level ideal run *)
+(* a concrete instance of the right-hand side: a 2-node ideal run with one step *)
 Example C04_end_to_end_non_vacuous :
   simulate_ideal NumR 2 1 [0; 1] = [[1; 1]; ideal_next NumR ((1 - 0) / 1) [1; 1]].
 Proof. reflexivity. Qed.
+
+(* the oracle hypothesis is satisfiable: a solver that reads the coefficients back from the main diagonal and eliminates *)
+Fixpoint k_of_main (main : list R) : list R :=
+  match main with
+  | [] => []
+  | [d] => [d - 1]
+  | d :: rest => (d - 1) / 2 :: k_of_main rest
+  end.
+Lemma k_of_main_cons2 a b l : k_of_main (a :: b :: l) = (a - 1) / 2 :: k_of_main (b :: l).
+Proof. reflexivity. Qed.
+Lemma k_of_main_rows_from : forall k first, k_of_main (diag_main (rows_from NumR first k)) = k.
+Proof.
+  induction k as [|kj rest IH]; intros first; [reflexivity|].
+  destruct rest as [|r2 rest'].
+  - rewrite rows_from_single. cbn. f_equal. ring.
+  - rewrite rows_from_cons2. unfold diag_main in *. cbn [map fst snd].
+    specialize (IH false). destruct (map (fun r : R * R * R => snd (fst r)) (rows_from NumR false (r2 :: rest'))) as [|d ds] eqn:E.
+    + rewrite rows_from_cons2 in E || destruct rest'; discriminate.
+    + rewrite k_of_main_cons2, IH. f_equal. field.
+Qed.
+Definition elimination_solver (A : list R * list R * list R) (b : list R) : list R :=
+  thomas NumR (rows_of NumR (k_of_main (snd (fst A)))) b.
+Theorem C04_end_to_end_oracle_is_satisfiable : forall k b,
+  elimination_solver (diag_low (rows_of NumR k), diag_main (rows_of NumR k), diag_up (rows_of NumR k)) b = thomas NumR (rows_of NumR k) b.
+Proof. intros. unfold elimination_solver. cbn [fst snd]. unfold rows_of at 2. now rewrite k_of_main_rows_from. Qed.
+
+(* ... so, with no hypothesis left: the regenerated loops with that solver ARE the model *)
+Corollary C04_regenerated_loops_with_elimination_are_the_model :
+  (forall dx2 times nx (field : list (list R)), times <> [] -> (0 < nx)%nat -> length field = length times -> nth 0 field [] = repeat 1 nx ->
+     array_loop [] (source_ideal_step elimination_solver dx2 times) (ideal_loop_indices (length times)) field = simulate_ideal NumR nx dx2 times)
+  /\ (forall (alpha_s : R -> R) nxR m_i times mf nx (field : list (list R)),
+     times <> [] -> (0 < nx)%nat -> length mf = length times -> length field = length times ->
+     nth 0 field [] = Tridiag.set_first (repeat m_i nx) (hd 0 mf) ->
+     array_loop [] (source_single_step elimination_solver alpha_s nxR m_i times mf) (single_loop_indices (length times)) field
+     = simulate_single NumR alpha_s m_i nx ((1 / nxR) ^ 2) times mf).
+Proof.
+  split; intros.
+  - now apply C04_regenerated_ideal_loop_computes_the_model_field; [apply C04_end_to_end_oracle_is_satisfiable|..].
+  - now apply C04_regenerated_single_phase_loop_computes_the_model_field; [apply C04_end_to_end_oracle_is_satisfiable|..].
+Qed.
+Print Assumptions C04_regenerated_loops_with_elimination_are_the_model.
